@@ -37,7 +37,7 @@ fn test(c: &SimCase, obs: &mut Obs) -> CheckResult {
 // the same oracle on runs with socket faults: failed sends and TCP address-in-use re-issues put
 // Failed / Skipped entries anywhere in a round, including in its first slot
 
-fn fault_strat() -> BoxedStrategy<SimCase> {
+pub fn fault_strat() -> BoxedStrategy<SimCase> {
     sim_case(&GenOpts {
         supported_only: true,
         sending_only: true,
